@@ -380,9 +380,17 @@ func diffLines(a, b string) string {
 // genBatch draws a batch; the model is only consulted for live values.
 func genBatch(g *Gen) []txr {
 	nt := 1 + g.r.Intn(pick(g.r, 1, 3, 8))
+	big := g.r.Intn(12) == 0
+	if big {
+		// a batch as large as a busy server's (the sqlite worker takes up to its batch size, 1000 by default, per Execute)
+		nt = 60 + g.r.Intn(140)
+	}
 	var txs []txr
 	for i := 0; i < nt; i++ {
 		nc := 1 + g.r.Intn(pick(g.r, 1, 3, 6))
+		if big {
+			nc = 1 + g.r.Intn(2)
+		}
 		var tx txr
 		for j := 0; j < nc; j++ {
 			tx.cmds = append(tx.cmds, g.Command())
